@@ -112,6 +112,13 @@ def cases(tier, rng):
                        "attach b %s id=%s" % (pt, ident), "feed b " + W.tok(W.msg(body)), "recv"]
                 out.append("t%d.%s sock %s / %s" % (k, t, t, " / ".join(ops)))
                 k += 1
+    # real connections, descriptors counted: a subscriber that stopped reading (so that megabytes are queued for it) and then
+    # goes away is released by PUB as promptly as an idle one - the queued data does not keep the connection
+    for tr in ("tcp4", "ipc"):
+        for nflood in (0, 300):
+            ops = ["bind " + tr, "conn 0", "conn 0", "xchg 0", "fdsnow"] + (["flood %d 65536" % nflood] if nflood else []) + ["halfclose 1", "fdsnow", "halfclose 0", "fdsnow"]
+            out.append("r%d.PUB rt PUB / %s" % (k, " / ".join(ops)))
+            k += 1
     # an orderly close between messages (which the socket does not report: the listed finding) FOLLOWED by a failing write:
     # that failure is an observation, after which the peer is forgotten and released like any other
     for t in ("ROUTER", "DEALER"):
@@ -191,6 +198,14 @@ def judge(line, obs, orc):
     if "spin" in obs.split() or "hang" in obs:
         return "recv spins or hangs: " + obs[:80]
     cid = line.split()[0]
+    if line.split()[1] == "rt":
+        fd = [int(x[4:]) for x in obs.split() if x.startswith("fdn=")]
+        if len(fd) != 3 or not all(x.endswith(("=ok", "=done")) or x.startswith(("fdn=", "b#")) for x in obs.split()):
+            return "real-connection scenario did not run: " + obs[:120]
+        if fd[1] != fd[0] - 1 or fd[2] != fd[0] - 2:
+            return ("PUB holds on to the connection of a subscriber that has gone away (open descriptors over baseline: %d, after the "
+                    "first subscriber left %d, after the second %d)" % (fd[0], fd[1], fd[2]))
+        return None
     t, po = S.pair_ops_obs(line, obs)
     if cid.startswith("t"):
         last = [tk for op, tk in po if op[0] == "recv"][-1]
